@@ -93,10 +93,24 @@ def canonicalSlicers (idx : List IdxItem) (shape : List Nat) : Except Err (List 
 
 /-! ### fill_slicer, _full_slicer_len, slice2len, _positive_slice -/
 
-/-- `fill_slicer(slicer, in_len)` (repaired logic: clamps exactly like `slice.indices`). -/
+/-- `fill_slicer(slicer, in_len)` (fileslice.py:201-233, after the C06 `fix:` commit):
+    `slicer.indices(in_len)`, then for negative steps an empty "start before the first element"
+    slice becomes `(0, 0, step)` and a stop below zero becomes `None`. -/
 def fillSlicer (s : PySlice) (n : Nat) : Filled :=
   let (a, b, c) := s.indices n
-  if c < 0 ∧ b < 0 then ⟨a, none, c⟩ else ⟨a, some b, c⟩
+  if c < 0 then
+    (if a < 0 then ⟨0, some 0, c⟩ else if b < 0 then ⟨a, none, c⟩ else ⟨a, some b, c⟩)
+  else ⟨a, some b, c⟩
+
+/-- the pinned (pre-fix) `fill_slicer`, kept for the counterexample theorems -/
+def fillSlicerOrig (s : PySlice) (n : Nat) : Filled :=
+  let step := s.stepVal
+  let start := s.start.map (fun v => if v < 0 then (n : Int) + v else v)
+  let stop := s.stop.map (fun v => if v < 0 then (n : Int) + v else v)
+  if step > 0 then
+    ⟨start.getD 0, some (match stop with | none => (n : Int) | some v => min v n), step⟩
+  else
+    ⟨match start with | none => (n : Int) - 1 | some v => min v ((n : Int) - 1), stop, step⟩
 
 /-- `_full_slicer_len` -/
 def fullSlicerLen (f : Filled) : Nat :=
@@ -111,15 +125,18 @@ def fullSlicerLen (f : Filled) : Nat :=
 def slice2len (s : PySlice) (n : Nat) : Nat :=
   if s = pySliceNone then n else fullSlicerLen (fillSlicer s n)
 
-/-- `_positive_slice` for a filled slicer (repaired logic: an empty slice stays empty). -/
+/-- `_positive_slice` (fileslice.py:271-287, after the fix): an empty slice stays empty,
+    otherwise `n = ceil(gap/step) - 1` steps down from `start` give the new start. -/
 def positiveSlice (f : Filled) : Filled :=
   if f.step > 0 then f
   else
-    let len := fullSlicerLen f
-    if len = 0 then ⟨0, some 0, -f.step⟩
+    let stop := f.stop.getD (-1)
+    let gap := stop - f.start
+    if gap ≥ 0 then ⟨f.start, some f.start, -f.step⟩
     else
-      let last := f.start + ((len : Int) - 1) * f.step
-      ⟨last, some (f.start + 1), -f.step⟩
+      let q := gap.natAbs / f.step.natAbs
+      let k : Int := if gap.natAbs % f.step.natAbs = 0 then (q : Int) - 1 else (q : Int)
+      ⟨f.start + k * f.step, some (f.start + 1), -f.step⟩
 
 /-! ### heuristic -/
 
@@ -256,12 +273,19 @@ def ReadItem.isFullFor (n : Nat) : ReadItem → Bool
   | .newaxis => false
   | r => fillSlicer r.toPy n = ⟨0, some (n : Int), 1⟩
 
+/-- does this read item select nothing (`slice_len == 0` → `return []`) -/
+def ReadItem.isEmptyFor (n : Nat) : ReadItem → Bool
+  | .int _ => false
+  | .newaxis => false
+  | r => fullSlicerLen (fillSlicer r.toPy n) = 0
+
 def segLoop : List ReadItem → List Nat → (stride : Nat) → (allFull : Bool) → List Segment → List Segment
   | [], _, _, _, segs => segs
   | .newaxis :: rest, shape, stride, allFull, segs => segLoop rest shape stride allFull segs
   | _ :: _, [], _, _, segs => segs
   | r :: rest, n :: shape, stride, allFull, segs =>
-      segLoop rest shape (stride * n) (allFull && r.isFullFor n) (segStep r n stride allFull segs)
+      if r.isEmptyFor n then []
+      else segLoop rest shape (stride * n) (allFull && r.isFullFor n) (segStep r n stride allFull segs)
 
 def slicers2segments (rs : List ReadItem) (shape : List Nat) (off : Nat) (isz : Nat) : List Segment :=
   segLoop rs shape isz true [⟨off, isz⟩]
